@@ -188,6 +188,37 @@ def run(ctx):
     ctx.note_space("9^3 stage behaviours x 10 cleanup variants x 7 flavours"
                    + (" (1/%d slice, rotated by seed)" % stride if stride > 1 else ""),
                    n, complete=(stride == 1))
+    # MultipleExceptions nested in MultipleExceptions (what stacked fixtures produce) holding an interrupt;
+    # every result flavour x TestCases with their own failureException / skipException x single raises
+    n = 0
+    for fi, flavour in enumerate(FLAVOURS):
+        for stage in ("su", "test", "td", "c1"):
+            for inner in ("kbd", "exit"):
+                for shape in (0, 1, 2):
+                    if not ctx.mine():
+                        continue
+                    n += 1
+                    a = ["raise", inner, "<<B1>>"]
+                    e = ["raise", "error", "<<E2>>"]
+                    multi = [["multi", [["multi", [a, e], "<<M3>>"], ["raise", "fail", "<<F4>>"]], "<<M5>>"],
+                             ["multi", [e, ["multi", [["multi", [a], "<<M3>>"]], "<<M6>>"]], "<<M5>>"],
+                             ["multi", [a, e], "<<M5>>"]][shape]
+                    prog = {"su_pre": [], "su": [], "test": [], "td": [], "td_pre": [], "scratch": {}}
+                    if stage == "c1":
+                        prog["su_pre"].append(["cleanup", "c1", [multi]])
+                    else:
+                        prog[stage].append(multi)
+                    ctx.execute("prog", {"prog": prog, "flavour": flavour})
+        for own in ("own_fail", "own_skip"):
+            for kind in ("fail", "skip", "xfail", "uxs", "error", "mismatch"):
+                for stage in ("su", "test", "td"):
+                    if ctx.mine():
+                        n += 1
+                        prog = {"su_pre": [], "su": [], "test": [], "td": [], "td_pre": [], "scratch": {}, own: True}
+                        prog[stage].append(["raise", kind, "<<K1>>"])
+                        ctx.execute("prog", {"prog": prog, "flavour": flavour})
+    ctx.note_space("nested MultipleExceptions holding an interrupt (3 shapes x 2 x 4 stages) and single raises on "
+                   "TestCases with own failureException / skipException (2 x 6 x 3), every result flavour", n)
     ctx.notes["random_cases"] = True
     for i in range(ctx.scale(2500, 250000)):
         if ctx.out_of_time():
